@@ -700,6 +700,10 @@ class PrefVer(VerificationStrategy):
         return "ver " + ",".join(self.prefs)
 
     def pack(self, c):
+        # the first listed prefix (when there are several) is verified without a pack: one strategy, a pack for some
+        # of its classes only
+        if len(self.prefs) >= 2 and c.prefix == self.prefs[0]:
+            raise InvalidOperationError("no pack for this class")
         return make_pack(mode=self.mode)
 
     def get_terms(self, c, n):
